@@ -56,10 +56,10 @@ cfg("asyncio_t_split", "C17 thorough, topology split: scripts of <= 3 operations
 cfg("asyncio_t_join", "C17 thorough, topology join: scripts of <= 3 operations per branch, chunk sizes 1..2, strings <= 3 bytes, peer <= 3 operations, also in the middle of a dispatch.",
     "join", MaxOps=3, MaxChunk=2)
 HO = "two tasks A and B use ONE adapter one after the other: a pending operation is abandoned (future dropped) and the other task waits for the same direction"
-cfg("asyncio_q_handoff", "C17 quick, topology handoff (" + HO + "):\nscripts of <= 2 operations per task, <= 2 abandoned operations, chunk sizes 1..2, strings <= 2 bytes, peer scripts <= 2 operations.",
-    "handoff", MaxLen=2, MaxOps=2, MaxChunk=2, MaxPeerOps=2, MaxAbandon=2, AsyncPeer=False)
-cfg("asyncio_t_handoff", "C17 thorough, topology handoff: scripts of <= 3 operations per task, <= 2 abandoned operations, chunk sizes 1..2, strings <= 3 bytes, peer <= 3 operations.",
-    "handoff", MaxLen=3, MaxOps=3, MaxChunk=2, MaxPeerOps=3, MaxAbandon=2, AsyncPeer=False)
+cfg("asyncio_q_handoff", "C17 quick, topology handoff (" + HO + "):\nscripts of <= 2 operations per task (all four kinds), one abandoned operation, chunk size 1, strings <= 2 bytes, peer scripts <= 2 operations.",
+    "handoff", MaxLen=2, MaxOps=2, MaxChunk=1, MaxPeerOps=2, MaxAbandon=1, AsyncPeer=False)
+cfg("asyncio_t_handoff", "C17 thorough, topology handoff: scripts of <= 3 operations per task, one abandoned operation, chunk sizes 1..2, strings <= 2 bytes, peer <= 2 operations.",
+    "handoff", MaxLen=2, MaxOps=3, MaxChunk=2, MaxPeerOps=2, MaxAbandon=1, AsyncPeer=False)
 V = {"notreplaced": ("waker_not_replaced", "handoff", "Inv_C17_NeverStuck", "register_waker returns early when the direction already has a waker and keeps the stale waker of an abandoned wait"),
      "dropfd": ("drop_keeps_fd", "solo", "Inv_C17_Released", "kill() does not delete the fd from the poller (before f0ccfc5)"),
      "adaptleak": ("failed_adapt_leaks", "solo", "Inv_C17_Released", "a failing adapt_io keeps the slot and O_NONBLOCK (before ae70cc3); checked against Blocking alone in asyncio_var_adaptleak_b"),
@@ -73,7 +73,8 @@ V = {"notreplaced": ("waker_not_replaced", "handoff", "Inv_C17_NeverStuck", "reg
      "norearm": ("no_rearm_after_event", "split", "Inv_C17_NeverStuck", "process_events does not renew the one-shot registration for the direction that is still waited for")}
 for k, (v, topo, inv, what) in V.items():
     cfg("asyncio_var_" + k, "non-vacuity: %s.  TLC must report %s violated." % (what, inv), topo, MaxChunk=2, MaxAdapt=(2 if topo == "solo" else 1),
-        WithFile=(topo == "solo"), MaxOps=(3 if topo == "solo" else 2), MaxAbandon=(2 if topo == "handoff" else 0), Variants='{"%s"}' % v, AsyncPeer=False)
+        WithFile=(topo == "solo"), MaxOps=(3 if topo == "solo" else 2), MaxAbandon=(1 if topo == "handoff" else 0),
+        MaxLen=(2 if topo == "handoff" else 3), MaxPeerOps=(2 if topo == "handoff" else 3), Variants='{"%s"}' % v, AsyncPeer=False)
 cfg("asyncio_var_adaptleak_b", "non-vacuity: a failing adapt_io leaves O_NONBLOCK set.  TLC must report Inv_C17_Blocking violated (only Blocking is checked).",
     "solo", MaxChunk=2, MaxAdapt=2, WithFile=True, Variants='{"failed_adapt_leaks"}', AsyncPeer=False, inv="Inv_C17_Blocking")
 cfg("asyncio_var_nowake_w", "non-vacuity of the quiescence clause: without the wake a task stays parked on a ready fd.  TLC must report Inv_C17_Woken violated (only Woken is checked).",
@@ -101,7 +102,7 @@ cfg("asyncio_var_single_live", "non-vacuity, liveness: the code before 0061559, 
     "join", MaxLen=2, MaxChunk=2, MaxOps=2, MaxPeerOps=2, Variants='{"single_waker"}', AsyncPeer=False, spec="FairSpec", inv="TypeOK", prop="Live_C17_Settles")
 cfg("asyncio_var_consumed_live", "non-vacuity, liveness: take_readiness(x) clears both bits -- ONE task polling readable() then writable(): while only the write\ndirection is ready, readable() (polled first) steals its readiness at every round.  TLC must report Live_C17_Settles violated.",
     "join", MaxLen=2, MaxChunk=2, MaxOps=2, MaxPeerOps=2, Variants='{"readiness_consumed_whole"}', AsyncPeer=False, spec="FairSpec", inv="TypeOK", prop="Live_C17_Settles")
-cfg("asyncio_live_handoff", "liveness, topology handoff (a wait is abandoned, another task waits for the same direction).", "handoff", MaxLen=2, MaxChunk=2, MaxOps=2,
-    MaxPeerOps=2, MaxAbandon=2, AsyncPeer=False, spec="FairSpec", inv="TypeOK", prop="Live_C17_Woken Live_C17_Settles")
+cfg("asyncio_live_handoff", "liveness, topology handoff (a wait is abandoned, another task waits for the same direction).", "handoff", MaxLen=1, MaxChunk=1, MaxOps=2,
+    MaxPeerOps=1, MaxAbandon=1, AsyncPeer=False, spec="FairSpec", inv="TypeOK", prop="Live_C17_Woken Live_C17_Settles")
 cfg("asyncio_scn_handoff", "scenario extraction (exhaustive): every guided behaviour of <= 7 controllable steps of topology handoff (scripts <= 1 operation per task,\none abandoned operation, one symbol).",
-    "handoff", sym="{1}", MaxLen=2, MaxOps=1, MaxChunk=2, MaxPeerOps=2, MaxAbandon=1, AsyncPeer=False, RecordHist=True, MaxSteps=7, Guided=True)
+    "handoff", sym="{1}", MaxLen=1, MaxOps=1, MaxChunk=1, MaxPeerOps=1, MaxAbandon=1, AsyncPeer=False, RecordHist=True, MaxSteps=7, Guided=True)
